@@ -21,7 +21,7 @@ EXPLANATION = (
     "(b) initiator mismatch decided by `id != _sid`, acceptor mismatch by `_sci() != tci()`; under _enforce_compids each leads on "
     "every path to stop(), state terminated, return false, with no Session::send reachable; (c) client-list miss and failed "
     "authenticate likewise; (d) reset flag => both counters := 1 else recover_seqnums, before the answer is sent; (e) the answer "
-    "Logon's HeartBtInt argument is the field read from the inbound message. R23.3 an acceptor's atomic_init precedes _connection->start() and does not follow it; R23.4 SessionConfig passes each configuration getter in the position of the LoginParameters constructor parameter that initialises the corresponding member. NOT decided: behaviour for concrete CompID strings.")
+    "Logon's HeartBtInt argument is the field read from the inbound message. R23.3 an acceptor's atomic_init precedes _connection->start() and does not follow it; R23.4 SessionConfig passes each configuration getter in the position of the LoginParameters constructor parameter that initialises the corresponding member. R23.5 the user-written copy operations of LoginParameters carry every member from the same member. NOT decided: behaviour for concrete CompID strings.")
 
 S = 'FIX8::Session::'
 SID = 'FIX8::SessionID::'
@@ -328,6 +328,14 @@ def run(ctx):
               '(CompID enforcement silently off)' % (wrong[0][0], wrong[0][3] + 1, wrong[0][2], wrong[0][1]) if wrong else None)
     from . import c20 as _c20
     _c20.reset_by_value_rule(ctx, prog, 'R23.2')
+    # ---------------- R23.5 the login parameters reach the session by ASSIGNMENT (SessionConfig, Session::set_login_parameters): the user-written copy
+    # operations of LoginParameters carry every member from the same member — `_enforce_compids` taken from `_reliable` switches CompID enforcement off for
+    # every non-reliable session
+    from ..copyrule import copy_ops_rule
+    n_lp, _f, _r = copy_ops_rule(ctx, prog, 'FIX8::LoginParameters', 'R23.5',
+                                 'a session configured to enforce CompIDs accepts a Logon whose CompIDs do not mirror its own (or the reverse)', min_fields=10)
+    if n_lp == 0:
+        ctx.ok('R23.5', 'FIX8::LoginParameters#carries-every-member', 'include/fix8/session.hpp:%d' % _r.get('l', 0), 'LoginParameters has no user-written copy operations')
     ctx.floor('R23.3', 1)
     ctx.floor('R23.4', 1)
     ctx.floor('R23.1', 1)
